@@ -507,6 +507,104 @@ func (lc *liveChecker) fieldHoldsOnlyOpen1(fv *types.Var) string {
 	return ""
 }
 
+// lookupCanMiss: m is a local map of this invocation and the answer is m[k]. The lookup cannot miss when k is one of
+// the keys stored into m in this invocation: the key variable of a range over m, or an element s[i] of a local
+// list s that is only ever built from those keys (appended next to the store m[E] = .. with the same E, or while
+// ranging over m). A list that can come from anywhere else (a cache, a field, a parameter) may name a key that is
+// not in today's map.
+func (lc *liveChecker) lookupCanMiss(f *core.FuncInfo, m types.Object, k ast.Expr) string {
+	info := f.Pkg.TypesInfo
+	k = ast.Unparen(k)
+	rangeKeyOfM := func(v types.Object) bool {
+		ok := false
+		ast.Inspect(f.Decl.Body, func(n ast.Node) bool {
+			if rs, isR := n.(*ast.RangeStmt); isR && rs.Key != nil && core.ObjOf(info, rs.Key) == v && core.ObjOf(info, rs.X) == m {
+				ok = true
+			}
+			return true
+		})
+		return ok
+	}
+	// expressions stored as keys of m: m[E] = ..
+	var stored []string
+	ast.Inspect(f.Decl.Body, func(n ast.Node) bool {
+		if as, ok := n.(*ast.AssignStmt); ok {
+			for _, l := range as.Lhs {
+				if ix, ok := ast.Unparen(l).(*ast.IndexExpr); ok && core.ObjOf(info, ix.X) == m {
+					stored = append(stored, core.ExprString(ix.Index))
+				}
+			}
+		}
+		return true
+	})
+	fromKeys := func(e ast.Expr) bool {
+		e = ast.Unparen(e)
+		if id, ok := e.(*ast.Ident); ok {
+			if v := info.Uses[id]; v != nil && rangeKeyOfM(v) {
+				return true
+			}
+		}
+		for _, st := range stored {
+			if core.ExprString(e) == st {
+				return true
+			}
+		}
+		return false
+	}
+	switch x := k.(type) {
+	case *ast.Ident:
+		if v := info.Uses[x]; v != nil && rangeKeyOfM(v) {
+			return ""
+		}
+		return "the key " + x.Name + " is not taken from the map's own keys"
+	case *ast.IndexExpr:
+		sv, ok := core.ObjOf(info, x.X).(*types.Var)
+		if !ok || sv.IsField() || sv.Parent() == sv.Pkg().Scope() {
+			return "the key comes from " + core.ExprString(x.X) + ", which outlives this invocation"
+		}
+		defs := localDefs(f, sv)
+		if len(defs) == 0 {
+			return "the key list " + sv.Name() + " is not built in this invocation"
+		}
+		for _, d := range defs {
+			rhs := ast.Unparen(d.rhs)
+			if d.idx > 0 {
+				continue // the ok of a two-value form
+			}
+			if c, ok := rhs.(*ast.CallExpr); ok {
+				if fid, ok := c.Fun.(*ast.Ident); ok {
+					switch fid.Name {
+					case "make":
+						continue
+					case "append":
+						good := len(c.Args) >= 1 && core.ObjOf(info, c.Args[0]) == types.Object(sv) && !c.Ellipsis.IsValid()
+						for _, a := range c.Args[1:] {
+							if !fromKeys(a) {
+								good = false
+							}
+						}
+						if good {
+							continue
+						}
+					}
+				}
+			}
+			if sl, ok := rhs.(*ast.SliceExpr); ok && core.ObjOf(info, sl.X) == types.Object(sv) {
+				continue
+			}
+			if cl, ok := rhs.(*ast.CompositeLit); ok && len(cl.Elts) == 0 {
+				continue
+			}
+			if isNilIdent(info, rhs) {
+				continue
+			}
+			return "the key list " + sv.Name() + " is assigned " + core.ExprString(rhs) + " at " + lc.w.Pos(rhs.Pos()) + ", not built from the keys stored into the map in this invocation"
+		}
+		return ""
+	}
+	return "the key " + core.ExprString(k) + " is not taken from the map's own keys"
+}
+
 // callbackFedOpen: g calls its func-typed parameter number ai only with a session (argument pi) that was tested
 // !IsClosed() on the path to the call, and uses that parameter for nothing but calling it.
 func (lc *liveChecker) callbackFedOpen(g *core.FuncInfo, ai, pi int) bool {
@@ -664,6 +762,14 @@ func (lc *liveChecker) verify(f *core.FuncInfo) string {
 			}
 		case *ast.IndexExpr:
 			o := core.ObjOf(info, x.X)
+			if o != nil {
+				if _, isMap := o.Type().Underlying().(*types.Map); isMap {
+					if miss := lc.lookupCanMiss(f, o, x.Index); miss != "" {
+						why = "answers " + core.ExprString(x) + ", a lookup that can miss (" + miss + "): nil is answered although open sessions are registered"
+						break
+					}
+				}
+			}
 			if o == nil {
 				why = "returns an element of long-lived storage (" + core.ExprString(x.X) + ") without an IsClosed test"
 			} else if v, isVar := o.(*types.Var); isVar && v.IsField() {
